@@ -15,13 +15,14 @@ let obs_of_iout (o : iout) : obs list =
 
 (* what the glue remembers along one history besides the monitor: the classes of histories the
    partial theorems exclude (recorded findings) *)
-type hstate = { mon : mon; mon6 : mon6; cid_changed : bool; pinger_outlived : bool }
-let hstate_init = { mon = mon_init; mon6 = mon6_init; cid_changed = false; pinger_outlived = false }
+type hstate = { mon : mon; mon6 : mon6; cid_changed : bool; pinger_outlived : bool; eof_cause : bool;
+                mon_m : mon; mon6_m : mon6 (* the same monitors over the MODEL's own outputs, see [step] *) }
+let hstate_init = { mon = mon_init; mon6 = mon6_init; cid_changed = false; pinger_outlived = false; eof_cause = false;
+                    mon_m = mon_init; mon6_m = mon6_init }
 
 (* (property, clause) failures of one step; s' is the model's state after the step *)
-let step (cfg : gw_cfg) (s : gw_state) (s' : gw_state) (ev : gw_event) (iouts : iout list) (h : hstate)
+let step1 (cfg : gw_cfg) (s : gw_state) (s' : gw_state) (ev : gw_event) (iouts : iout list) (os : obs list) (h : hstate)
   : (string * string) list * hstate =
-  let os = List.concat_map obs_of_iout iouts in
   let tag p l = List.map (fun c -> (p, "clause" ^ string_of_int (int_of_n c))) l in
   let tagc p cls l = List.map (fun c -> (p, "clause" ^ string_of_int (int_of_n c) ^ cls)) l in
   let c24 =
@@ -40,12 +41,23 @@ let step (cfg : gw_cfg) (s : gw_state) (s' : gw_state) (ev : gw_event) (iouts : 
                     (s'.gw_client_id <> s.gw_client_id && (s.gw_handed_out <> [] || nmap_to_list s.gw_registered <> [])) in
   (* C34: a sleep pinger is scheduled while the session leaves the sleep or a new sleep is announced *)
   let pinger_outlived = h.pinger_outlived || c34_excluded cfg s ev in
+  (* C34: the termination deadline the monitor holds was set by the broker closing the connection *)
+  let eof_cause = (match m'.m_end_by with
+      | None -> false
+      | Some _ -> if h.mon.m_end_by = None then ev = EvMqEof else h.eof_cause) in
   let st = (match s.gw_st with Disconnected -> "disconnected" | Active -> "active" | Asleep -> "asleep" | Awake -> "awake") in
   let mfs = List.map (fun (p, c) ->
       let p = int_of_n p in
       (Printf.sprintf "C%02d" p,
        Printf.sprintf "clause%d state=%s%s" (int_of_n c) st
          (if p = 34 && pinger_outlived then " class=pinger-outlives-sleep" else ""))) mf in
+  (* the two other legs of C34: the session of a vanished client ends once the broker has dropped the
+     connection (13,2 after a broker close) and a half-open connect exchange ends it (10,1) *)
+  let mfs = mfs @ List.concat_map (fun (p, c) ->
+      match int_of_n p, int_of_n c with
+      | 13, 2 when h.eof_cause -> [("C34", "clause2 state=" ^ st)]
+      | 10, 1 -> [("C34", "clause3 state=" ^ st)]
+      | _ -> []) mf in
   let asleep_cx = " class=asleep-in-connect-exchange" in
   (tag "C14" (chk_C14 ev os) @ tag "C01" (chk_C01 cfg s ev os) @ tag "C23" (chk_C23 os) @ c24 @ c24m
    @ tag "C03" (chk_C03 cfg s ev os)
@@ -56,6 +68,22 @@ let step (cfg : gw_cfg) (s : gw_state) (s' : gw_state) (ev : gw_event) (iouts : 
       WILL*REQ: the per-step clause of C09 cannot attribute it (C11 checks the flush, see DESIGN.md) *)
    @ (if c09_excluded cfg s ev then [] else tag "C09" (chk_C09 cfg s ev os))
    @ tag "C11" (chk_C11 cfg s ev os)
-   @ tag "C02" (chk_C02 cfg s s' ev os) @ mfs
-   @ List.map (fun c -> let c = int_of_n c in ("C06", if c < 10 then Printf.sprintf "clause%d class=same-id-both-directions" c else Printf.sprintf "clause%d" (c - 10))) f6,
-   { mon = m'; mon6 = m6'; cid_changed; pinger_outlived })
+   @ tag "C02" (chk_C02 cfg s s' ev os) @ tag "C16" (chk_C16 cfg s ev os) @ mfs
+   @ List.map (fun c -> let c = int_of_n c in
+                ("C06", if c < 10 then Printf.sprintf "clause%d class=same-id-both-directions" c
+                        else if c > 20 then Printf.sprintf "clause%d class=superseded-client-exchange" (c - 20)
+                        else Printf.sprintf "clause%d" (c - 10))) f6,
+   { h with mon = m'; mon6 = m6'; cid_changed; pinger_outlived; eof_cause })
+
+(* The checkers run twice per step: on the implementation's observations and on the model's own
+   outputs (with monitors of their own).  A failure carries "model=fails" when the faithful model
+   fails the same clause in the same step - the situation of a refutation theorem (C02, C04, C06,
+   C11, C12, C34 ..._refuted), which is what a recorded finding describes - and "model=holds" when
+   only the implementation fails it: that is never a recorded finding. *)
+let step (cfg : gw_cfg) (s : gw_state) (s' : gw_state) (ev : gw_event) (iouts : iout list) (mouts : gw_out list) (h : hstate)
+  : (string * string) list * hstate =
+  let (fi, hi) = step1 cfg s s' ev iouts (List.concat_map obs_of_iout iouts) h in
+  let hm0 = { h with mon = h.mon_m; mon6 = h.mon6_m } in
+  let (fm, hm) = step1 cfg s s' ev [] (obs_of_outs mouts) hm0 in
+  (List.map (fun (p, c) -> (p, c ^ (if List.mem (p, c) fm then " model=fails" else " model=holds"))) fi,
+   { hi with mon_m = hm.mon; mon6_m = hm.mon6 })
